@@ -127,3 +127,14 @@ Example ex_client_gone :
   let st := fold_left (hstep toy_md5 toy_rx ex_cfg) ex_ops2 (init_state 1 1) in
   (exists r, get_rq st 0 = Some r /\ rq_from r = Some 0%nat) /\ get_rq (removeclient st 0) 0 = None.
 Proof. vm_compute. split; [eexists; split; reflexivity | reflexivity]. Qed.
+
+(* C12 handshake: the premises of C12_reconnect_handshake are met by the connecter of the source, with a flag still
+   pending from an earlier reset, a pass while the connection is down and one before the signal; the re-send pass on
+   the new connection (generation 1) is the third *)
+From RSP Require Import Connect.
+Example ex_handshake :
+  handshake_ok tcp_prog = true /\
+  wake_after (signalled_at tcp_prog) [Some 1; None; Some 2; None; None; Some 3; None; Some 9]%Z = true /\
+  run tcp_prog [Some 1; None; Some 2; None; None; Some 3; None; Some 9]%Z (mkLink true 0 true) =
+    [mkPass 1 true true 0; mkPass 2 false false 0; mkPass 3 true true 1; mkPass 9 false true 1].
+Proof. vm_compute. repeat split. Qed.
